@@ -30,11 +30,26 @@ func TestMain(m *testing.M) { pbt.Main(m) }
 type file struct {
 	Name    string
 	Content []byte
+	Big     int  `json:",omitempty"` // >0: the content is bigContent(Big, Comp) instead of Content
+	Comp    bool `json:",omitempty"`
+}
+
+// expand materialises the big contents.
+func expand(fs []file) []file {
+	out := make([]file, len(fs))
+	for i, f := range fs {
+		out[i] = f
+		if f.Big > 0 {
+			out[i].Content = bigContent(f.Big, f.Comp)
+		}
+	}
+	return out
 }
 
 type setCase struct {
 	Files []file
 	Perm  []int // order in which the names are listed
+	Chunk int   // >0: contents are delivered in reads of at most this many bytes
 }
 
 func formula(files []file) string {
@@ -52,7 +67,31 @@ func formula(files []file) string {
 	return "h1:" + base64.StdEncoding.EncodeToString(total[:])
 }
 
-func opener(files []file) func(string) (io.ReadCloser, error) {
+func opener(files []file) func(string) (io.ReadCloser, error) { return chunkOpener(files, 0) }
+
+// chunkReader hands out at most chunk bytes per Read (short reads without error are legal for an io.Reader).
+type chunkReader struct {
+	b     []byte
+	chunk int
+}
+
+func (r *chunkReader) Read(p []byte) (int, error) {
+	if len(r.b) == 0 {
+		return 0, io.EOF
+	}
+	n := r.chunk
+	if n > len(p) {
+		n = len(p)
+	}
+	if n > len(r.b) {
+		n = len(r.b)
+	}
+	copy(p, r.b[:n])
+	r.b = r.b[n:]
+	return n, nil
+}
+
+func chunkOpener(files []file, chunk int) func(string) (io.ReadCloser, error) {
 	m := map[string][]byte{}
 	for _, f := range files {
 		m[f.Name] = f.Content
@@ -61,6 +100,9 @@ func opener(files []file) func(string) (io.ReadCloser, error) {
 		b, ok := m[name]
 		if !ok {
 			return nil, fmt.Errorf("no file %q", name)
+		}
+		if chunk > 0 {
+			return io.NopCloser(&chunkReader{b, chunk}), nil
 		}
 		return io.NopCloser(bytes.NewReader(b)), nil
 	}
@@ -84,7 +126,30 @@ func genName(t *rapid.T) string {
 	return rapid.StringMatching(`[a-z]{1,3}(/[a-z]{1,3}){0,3}`).Draw(t, "path")
 }
 
+// bigContent returns n bytes: either highly compressible or not.
+func bigContent(n int, compressible bool) []byte {
+	b := make([]byte, n)
+	x := uint32(n)
+	for i := range b {
+		if compressible {
+			b[i] = byte('a' + i%3)
+		} else {
+			x = x*1664525 + 1013904223
+			b[i] = byte(x >> 24)
+		}
+	}
+	return b
+}
+
 func genContent(t *rapid.T) []byte {
+	return genContentBig(t, false)
+}
+
+func genContentBig(t *rapid.T, allowBig bool) []byte {
+	if allowBig && rapid.IntRange(0, 7).Draw(t, "big") == 0 {
+		n := []int{32767, 32768, 32769, 40000, 65536, 65537, 100000, 200000}[rapid.IntRange(0, 7).Draw(t, "bigsize")]
+		return bigContent(n, rapid.Bool().Draw(t, "compressible"))
+	}
 	switch rapid.IntRange(0, 5).Draw(t, "ck") {
 	case 0:
 		return nil
@@ -106,7 +171,7 @@ func genFiles(t *rapid.T, min int) []file {
 			name += fmt.Sprint(i)
 		}
 		seen[name] = true
-		fs = append(fs, file{name, genContent(t)})
+		fs = append(fs, file{Name: name, Content: genContent(t)})
 	}
 	return fs
 }
@@ -117,7 +182,11 @@ func genSet(t *rapid.T) setCase {
 	for i := range idx {
 		idx[i] = i
 	}
-	return setCase{fs, rapid.Permutation(idx).Draw(t, "perm")}
+	chunk := 0
+	if rapid.IntRange(0, 2).Draw(t, "chunked") == 0 {
+		chunk = []int{1, 2, 7, 31, 32, 33, 100}[rapid.IntRange(0, 6).Draw(t, "chunk")]
+	}
+	return setCase{fs, rapid.Permutation(idx).Draw(t, "perm"), chunk}
 }
 
 func validPerm(p []int, n int) bool {
@@ -168,7 +237,14 @@ func checkSet(c setCase) pbt.Result {
 		}
 	}
 	keep := append([]string(nil), listed...)
-	got, err := dirhash.Hash1(listed, opener(c.Files))
+	if c.Chunk < 0 {
+		r.Skip = true
+		return r
+	}
+	got, err := dirhash.Hash1(listed, chunkOpener(c.Files, c.Chunk))
+	if c.Chunk > 0 {
+		r.Classes = append(r.Classes, "short reads")
+	}
 	if fmt.Sprint(keep) != fmt.Sprint(listed) {
 		r.Fail = pbt.Failf("mutates-input", "Hash1 reordered the caller's slice: %q -> %q", keep, listed)
 		return r
@@ -206,7 +282,7 @@ type pairCase struct {
 func cloneFiles(fs []file) []file {
 	out := make([]file, len(fs))
 	for i, f := range fs {
-		out[i] = file{f.Name, append([]byte(nil), f.Content...)}
+		out[i] = file{Name: f.Name, Content: append([]byte(nil), f.Content...)}
 	}
 	return out
 }
@@ -252,7 +328,7 @@ func genPair(t *rapid.T) pairCase {
 			b = append(b[:j], b[j+1:]...)
 		}
 	case "split-file":
-		b = append(b, file{b[i].Name + "2", b[i].Content})
+		b = append(b, file{Name: b[i].Name + "2", Content: b[i].Content})
 	case "drop-file":
 		b = append(b[:i], b[i+1:]...)
 	case "rename-case":
@@ -359,7 +435,13 @@ func genTree(t *rapid.T) treeCase {
 			continue
 		}
 		seen[name] = true
-		fs = append(fs, file{name, genContent(t)})
+		f := file{Name: name, Content: genContent(t)}
+		if rapid.IntRange(0, 9).Draw(t, "big") == 0 {
+			f.Content = nil
+			f.Big = []int{32767, 32768, 32769, 40000, 65536, 65537, 100000, 200000}[rapid.IntRange(0, 7).Draw(t, "bigsize")]
+			f.Comp = rapid.Bool().Draw(t, "compressible")
+		}
+		fs = append(fs, f)
 	}
 	prefix := []string{"example.com/m@v1.0.0", "m@v1", "p", "github.com/A/b@v0.0.0-20200101000000-abcdefabcdef", "x y"}[rapid.IntRange(0, 4).Draw(t, "prefix")]
 	return treeCase{fs, prefix, []uint16{zip.Store, zip.Deflate}[rapid.IntRange(0, 1).Draw(t, "method")]}
@@ -389,6 +471,16 @@ func checkTree(c treeCase) pbt.Result {
 		return r
 	}
 	r.NonTrivial = len(c.Files) >= 2
+	for _, f := range c.Files {
+		if f.Big > 1<<20 || f.Big < 0 {
+			r.Skip = true
+			return r
+		}
+		if f.Big > 0 {
+			r.Classes = append(r.Classes, "file larger than 32 KiB")
+		}
+	}
+	c.Files = expand(c.Files)
 	dir, err := os.MkdirTemp("", "verif-c19-")
 	if err != nil {
 		panic(err)
@@ -403,7 +495,7 @@ func checkTree(c treeCase) pbt.Result {
 		if err := os.WriteFile(p, f.Content, 0o644); err != nil {
 			panic(err)
 		}
-		prefixed = append(prefixed, file{c.Prefix + "/" + f.Name, f.Content})
+		prefixed = append(prefixed, file{Name: c.Prefix + "/" + f.Name, Content: f.Content})
 	}
 	want := formula(prefixed)
 	got, err := dirhash.HashDir(root, c.Prefix, dirhash.Hash1)
